@@ -46,7 +46,9 @@ def handle (payload : List Sx) : Sx :=
         .list [.atom "sig", .atom (toString cnt), .list (.atom "p" :: (tys.take k).map tySx),
                .list (.atom "r" :: (tys.drop k).map tySx)]
       | .clash => .list [.atom "clash"]
-      | .fuel => .list [.atom "fuel"]
+      -- the step bound was not enough (unify_total: a larger one would answer); the reference has no
+      -- answer for this graph, which is counted and not compared
+      | .fuel => .list [.atom "outside-fragment", .atom "step-bound"]
     | _, _, _ => .atom "bad-line"
   | _ => .atom "bad-line"
 
